@@ -165,6 +165,11 @@ def processLine (acc : Acc) (line : String) : Acc :=
           (if !Spec.sameList modelPost.macc implPost.macc then ["macc"] else [])
         let tr : Spec.Tr := { env := acc.env, pre := acc.cur, op := op, ok := implOk, resp := implResp, post := implPost }
         let viol := Spec.monitors.filterMap (fun (pid, name, f) => if f tr then none else some s!"{seq} V {pid} {name}")
+        -- the callback panicked on a packet for which the specification (the model) returns an acknowledgement: the
+        -- underlying transfer's acknowledgement was NOT returned
+        let viol := viol ++ (match op with
+          | .recv _ => if modelOk && implClass == "rej:panic" then [s!"{seq} V C11 ack_returned_no_panic"] else []
+          | _ => [])
         let (br, mag) := match op with
           | .recv p => (branchOf acc.env acc.cur p, magnitude p.amount)
           | .cs o => (Drv.Coinswap.branchOf acc.cur.cs o, Drv.Coinswap.opMagnitude o)
